@@ -374,7 +374,8 @@ def _propagate(ctx, py):
         t0 = time.time()
         n = 9 if wa else 7
         nrow = 3
-        ts = [RSym(sp.Symbol("t%d" % k, real=True)) for k in range(nrow)]
+        from pvx.sym import increasing_stamps
+        ts = [RSym(x) for x in increasing_stamps(nrow)]
         Fl = [sp.Matrix(n, n, lambda i, j: sp.Symbol("F%d_%d_%d" % (k, i, j), real=True) if (i + 2 * j + k) % 3 == 0 else 0) for k in range(nrow)]
         Gl = [sp.Matrix(n, 3, lambda i, j: sp.Symbol("G%d_%d_%d" % (k, i, j), real=True) if (i + j) % 2 == 0 else 0) for k in range(nrow)]
         Al = [sp.Matrix(n, 3, lambda i, j: sp.Symbol("A%d_%d_%d" % (k, i, j), real=True) if (i + j) % 2 == 1 else 0) for k in range(nrow)]
